@@ -1402,6 +1402,8 @@ def run(ctx: Ctx):
     # ---- A. decode tie (no compile)
     decode_tie(ctx, ctx.scale(60, 400))
 
+    slow_probes(ctx, ctx.scale(6, 18))
+
     # ---- B + C. compiled designs
     n_lay = ctx.scale(18, 110)
     n_scn = ctx.scale(14, 40)
@@ -1486,6 +1488,15 @@ def run(ctx: Ctx):
 def replay(ctx, data):
     r = data["replay"]
     lay = r["layout"]
+    if r.get("origin") == "slow-probe":
+        c = compile_many([(slow_source(r["params"]), "E")])[0]
+        if not c["ok"]:
+            print("rejected:", c["errtype"], c["err"][-300:])
+            return 1
+        fails_ = slow_sim((c["vhdl"], r["params"]))
+        for f in fails_:
+            print(f)
+        return 1 if fails_ else 0
     if r.get("origin") == "decode-tie":
         res = fork_map(decode_task, [lay], fresh=True, batch=1)[0]
         ents = " ".join(str(x) for x in lean_entries(lay))
@@ -1513,3 +1524,190 @@ def replay(ctx, data):
         print("  expected:", mrows[k] if k < len(mrows) else "-")
         print("  columns : awready wready bvalid arready rvalid rdata {value notify addr}*")
     return 1 if (res["errors"] or k is not None) else 0
+
+
+# ------------------------------------------------------------------------------------------------
+# multi-clock handlers: the master moves ARADDR / AWADDR / WDATA away as soon as the handshake completed
+# ------------------------------------------------------------------------------------------------
+
+SLOW_SRC = '''from __future__ import annotations
+import cohdl
+from cohdl import Port, Bit, BitVector, Unsigned, Signal, Null, Full
+from cohdl import std
+from cohdl.std.axi import axi4_light as axi
+from cohdl.std.reg import reg32
+
+class Slow(reg32.Register):
+    v: reg32.MemField[31:0, Null]
+    async def _on_read_(self):
+{RWAIT}
+        return self
+    async def _on_write_(self, data):
+        buf = Signal[BitVector[32]](data.v.val())
+{WWAIT}
+        return self(v=buf)
+
+class Note(reg32.Register):
+    v: reg32.MemField[31:0, Null]
+    npr: reg32.PushOnNotify.Read
+    npw: reg32.PushOnNotify.Write
+
+class Root(reg32.AddrMap):
+{MEMBERS}
+    def _config_(self, ent):
+        self.ent = ent
+    def _impl_concurrent_(self):
+        e = self.ent
+        e.o_slow <<= self.slow._to_bits_()
+{CONC}
+
+class E(axi.base_entity(addr_width=6)):
+    o_slow = Port.output(BitVector[32])
+{PORTS}
+    def architecture(self):
+        self.interface_connection().connect_addr_map(Root(self))
+'''
+
+
+def slow_source(p):
+    notes = p["notes"]
+    return SLOW_SRC.format(
+        RWAIT="\n".join(["        await cohdl.true"] * p["rwait"]), WWAIT="\n".join(["        await cohdl.true"] * p["wwait"]),
+        MEMBERS="\n".join([f"    slow: Slow[{p['slow']}]"] + [f"    note{i}: Note[{a}]" for i, a in enumerate(notes)]),
+        CONC="\n".join(f"        e.o_n{i} <<= self.note{i}._to_bits_()\n        e.nr_{i} <<= bool(self.note{i}.npr)\n        e.nw_{i} <<= bool(self.note{i}.npw)"
+                       for i in range(len(notes))),
+        PORTS="\n".join(f"    o_n{i} = Port.output(BitVector[32])\n    nr_{i} = Port.output(Bit)\n    nw_{i} = Port.output(Bit)" for i in range(len(notes))))
+
+
+def slow_sim(task):
+    """direct check of the property on a design with multi-clock read / write handlers (not covered by the per-clock
+    Lean model): after each handshake the master drives the payload of that channel to ANOTHER mapped address / other
+    data.  Returns the list of property failures."""
+    vhdl, p = task
+    d = Design(vhdl)
+    for port in ("axi_clk", "axi_awaddr", "axi_awprot", "axi_awvalid", "axi_wdata", "axi_wstrb", "axi_wvalid", "axi_bready",
+                 "axi_araddr", "axi_arprot", "axi_arvalid", "axi_rready"):
+        d.set(port, 0)
+    d.set("axi_reset", 0)
+    d.initialise()
+    notes = p["notes"]
+    fails = []
+    pulses = {("r", i): 0 for i in range(len(notes))}
+    pulses.update({("w", i): 0 for i in range(len(notes))})
+
+    def clk():
+        d.settle()
+        pre = {k: d.get("axi_" + k) for k in ("awready", "wready", "bvalid", "arready", "rvalid", "rdata")}
+        d.clock("axi_clk")
+        for i in range(len(notes)):
+            pulses[("r", i)] += int(d.get(f"nr_{i}") == 1)
+            pulses[("w", i)] += int(d.get(f"nw_{i}") == 1)
+        return pre
+
+    for _ in range(2):
+        clk()
+    d.set("axi_reset", 1)
+    for _ in range(2):
+        clk()
+
+    def write(addr, data, other_addr, other_data, w_late):
+        d.set("axi_awaddr", addr); d.set("axi_awvalid", 1)
+        d.set("axi_wdata", data); d.set("axi_wstrb", 15); d.set("axi_wvalid", 0 if w_late else 1)
+        d.set("axi_bready", 1)
+        nb, aw_done, w_done = 0, False, False
+        for k in range(30):
+            if w_late and k == w_late and not w_done:
+                d.set("axi_wvalid", 1)
+            pre = clk()
+            if not aw_done and d.get("axi_awvalid") == 1 and pre["awready"] == 1:
+                aw_done = True
+                d.set("axi_awvalid", 0); d.set("axi_awaddr", other_addr)      # legal: the address phase is over
+            if not w_done and d.get("axi_wvalid") == 1 and pre["wready"] == 1:
+                w_done = True
+                d.set("axi_wvalid", 0); d.set("axi_wdata", other_data); d.set("axi_wstrb", 15)
+            nb += int(pre["bvalid"] == 1)
+            if nb and pre["bvalid"] != 1 and k > 12:
+                break
+        d.set("axi_bready", 0)
+        return nb
+
+    def read(addr, other_addr):
+        d.set("axi_araddr", addr); d.set("axi_arvalid", 1); d.set("axi_rready", 1)
+        nr, ar_done, val = 0, False, None
+        for k in range(30):
+            pre = clk()
+            if not ar_done and pre["arready"] == 1:
+                ar_done = True
+                d.set("axi_arvalid", 0); d.set("axi_araddr", other_addr)      # legal: the address phase is over
+            if pre["rvalid"] == 1:
+                nr += 1
+                val = pre["rdata"]
+            if nr and pre["rvalid"] != 1 and k > 12:
+                break
+        d.set("axi_rready", 0)
+        return nr, val
+
+    def expect(what, got, want):
+        if got != want:
+            fails.append({"what": what, "observed": got, "expected": want})
+
+    vals = p["values"]
+    for i, a in enumerate(notes):
+        expect(f"B responses of write to note{i}", write(a, vals[i + 1], p["slow"], 0, 0), 1)
+        expect(f"note{i} after its write", d.get(f"o_n{i}"), vals[i + 1])
+    base = dict(pulses)
+    for j, other in enumerate(notes):
+        x = (vals[0] + j) & M32
+        nb = write(p["slow"], x, other, x ^ M32, p["w_late"])
+        expect(f"B responses of the slow write (AWADDR/WDATA moved to note{j} after the handshakes)", nb, 1)
+        expect("slow register after its write", d.get("o_slow"), x)
+        for i in range(len(notes)):
+            expect(f"note{i} after a write to the slow register", d.get(f"o_n{i}"), vals[i + 1])
+            expect(f"write notifications of note{i} without a write request", pulses[("w", i)] - base[("w", i)], 0)
+        nr, val = read(p["slow"], other)
+        expect(f"R responses of the slow read (ARADDR moved to note{j} after the handshake)", nr, 1)
+        expect(f"read data of the slow register (ARADDR moved to note{j} after the handshake)", val, x)
+        for i in range(len(notes)):
+            expect(f"read notifications of note{i} without a read request", pulses[("r", i)] - base[("r", i)], 0)
+    for i, a in enumerate(notes):
+        nr, val = read(a, p["slow"])
+        expect(f"read data of note{i}", val, vals[i + 1])
+        expect(f"read notifications of note{i} for one read", pulses[("r", i)] - base[("r", i)], 1)
+    return fails
+
+
+def slow_probes(ctx, n):
+    rng = ctx.rng
+    params = []
+    for k in range(n):
+        slow = 4 * rng.randrange(0, 6)
+        cnt = rng.randint(1, 3)
+        notes = sorted(rng.sample(range(slow + 4, 64, 4), cnt))
+        params.append({"slow": slow, "notes": notes, "rwait": 1 + k % 3, "wwait": 1 + (k // 3 + k) % 3, "w_late": rng.choice([0, 0, 2]),
+                       "values": [rng.randrange(1, 1 << 32) for _ in range(cnt + 1)]})
+    compiled = compile_many([(slow_source(p), "E") for p in params])
+    tasks = []
+    for p, c in zip(params, compiled):
+        if not c["ok"]:
+            ctx.report(f"slow-handler:compile:{c['errtype']}", f"a register map with multi-clock handlers is rejected: {c['errtype']}: {c['err'][-200:]}",
+                       {"origin": "slow-probe", "params": p, "design_source": slow_source(p)}, no_failing_input=True)
+        else:
+            tasks.append((c["vhdl"], p))
+    res = fork_map(slow_sim, tasks, fresh=False, chunk=1)
+    bad = 0
+    for (vhdl, p), r in zip(tasks, res):
+        ctx.case(key=("slow", json.dumps(p, sort_keys=True)), nontrivial=True, kind="multi-clock-handler")
+        if r[0] != "ok":
+            bad += 1
+            ctx.report("slow-handler:sim-error", f"multi-clock handler design cannot be executed: {r[1][-300:]}",
+                       {"origin": "slow-probe", "params": p, "design_source": slow_source(p)}, no_failing_input=True)
+        elif r[1]:
+            bad += 1
+            f = r[1][0]
+            what = f["what"].split(" (")[0]
+            ctx.report(f"slow-handler:{what}", f"register with a {p['rwait']}-clock read / {p['wwait']}-clock write handler at {p['slow']:#x}, notifying registers at "
+                       f"{[hex(a) for a in p['notes']]}: {f['what']} is {f['observed']}, expected {f['expected']}",
+                       {"origin": "slow-probe", "params": p, "failures": r[1][:6], "design_source": slow_source(p)})
+    ctx.obligation("multi-clock read / write handlers with the master moving ARADDR / AWADDR / WDATA after the handshake: read data, "
+                   "single response, no foreign notification, no foreign update (direct check on the emitted design)", bad == 0,
+                   detail=f"{len(tasks)} designs, {bad} failing")
